@@ -47,7 +47,7 @@ pub fn cfg_set(name: &str, mk: Kind, ci: bool, thorough: bool) -> Vec<Cfg> {
             for dd in [None, Some(0), Some(7)] {
                 v.push(c(LowNonContig, B, false, dd, true));
             }
-            for (dd, bc) in [(None, true), (Some(0), false), (Some(7), true), (Some(1), false)] {
+            for (dd, bc) in [(None, true), (Some(0), false), (Some(7), true), (Some(1), false), (Some(3), true)] {
                 v.push(c(LowContig, B, false, dd, bc));
             }
             for (sk, bc) in [(U, true), (B, false), (A, true), (B, true)] {
@@ -500,13 +500,13 @@ pub fn family(name: &str, thorough: bool, seed: usize) -> Family {
         }
         // ASCII case-insensitivity: letters of both cases, boundary bytes and non-ASCII
         "ci" => {
-            let alpha: &[u8] = &[b'a', b'A', b'z', b'Z', b'@', b'[', b'`', b'{', 0xC1, 0xE1];
+            let alpha: &[u8] = &[b'a', b'A', b'z', b'Z', b'@', b'[', b'`', b'{', 0xC1, 0xE1, b'k', b'K', b'm', b'S'];
             let pool = gen::strings(alpha, 0, 2);
             let mut lists = gen::lists(&pool, 1, 1, 0);
             let mut rng = gen::Rng(0xC1 + seed as u64);
             for _ in 0..(if thorough { 3000 } else { 400 }) {
                 let k = 2 + rng.below(2);
-                lists.push((0..k).map(|_| { let l = rng.below(4); rng.bytes(alpha, l) }).collect());
+                lists.push((0..k).map(|_| { let l = rng.below(6); rng.bytes(alpha, l) }).collect());
             }
             let mut hays = gen::strings(alpha, 0, 2);
             for _ in 0..(if thorough { 600 } else { 150 }) {
@@ -607,7 +607,12 @@ pub fn run(args: &Args) -> Report {
                             }
                         }
                     }
-                    let derived = if fname == "deep" || fname == "wide" || fname == "bytes" || fname == "many" { derived_hays(pats) } else { vec![] };
+                    let mut derived = if fname == "deep" || fname == "wide" || fname == "bytes" || fname == "many" || fname == "ci" { derived_hays(pats) } else { vec![] };
+                    if ci {
+                        // the other letter case at alternating positions
+                        let toggled: Vec<Vec<u8>> = derived.iter().map(|h| h.iter().enumerate().map(|(i, &b)| if i % 2 == 0 && b.is_ascii_alphabetic() { b ^ 0x20 } else { b }).collect()).collect();
+                        derived.extend(toggled);
+                    }
                     for hay in fam.hays.iter().chain(derived.iter()) {
                         if rel != "def" {
                             check_hay_rel(&ctx, &built, hay, aspects, &rel);
